@@ -817,7 +817,11 @@ def order_rule(r, f, owner, field, why):
                             if pa is not None:
                                 todo.append(pa["l"])
                         else:
-                            bad_.append(x.path)
+                            bad_.append("through `%s`" % x.path.split("::")[-1])
+                            for a_ in x.args:
+                                pa = op_place(a_)
+                                if pa is not None:
+                                    todo.append(pa["l"])
         if not root:
             continue
         found += 1
